@@ -90,7 +90,10 @@ def cases(tier):
                     out.append(Block(la=la, lb=lb, Ka=2, Kb=2, Ma=2, Mb=2,
                                      exps=[[str(E[(la + k) % 6]) for k in range(2)], [str(E[(lb + 3 + 2 * k) % 6]) for k in range(2)]]))
         for la, lb in [(0, 0), (1, 0), (1, 1), (2, 0)]:
-            out.append(Block(la=la, lb=lb, Ka=3, Kb=2, Ma=1, Mb=3))
+            if la + lb <= 1:
+                out.append(Block(la=la, lb=lb, Ka=3, Kb=2, Ma=1, Mb=3))
+            else:
+                out.append(Block(la=la, lb=lb, Ka=3, Kb=2, Ma=1, Mb=3, exps=[["3/2", "1/50", "5"], ["7/10", "11/4"]]))
         out.append(Public(ls=[3], types="s", Ks=[1], Ms=[1]))
         out.append(Public(ls=[2, 2], types="sc", Ks=[1, 2], Ms=[1, 1]))
         out.append(Public(ls=[0, 1, 2], types="csc", Ks=[1, 1, 1], Ms=[1, 1, 1]))
